@@ -32,3 +32,8 @@ pub fn any_abs_n(n: usize, maxcap: usize, mincap: usize) -> Abs {
     kani::assume(a.distinct());
     a
 }
+
+/// same view as `build`, different allocation order and index slot order
+pub fn build_rev<S: BuildHasher, E: OnEvictCallback>(a: &Abs, hasher: S, cb: Option<E>) -> RawLRU<u8, u8, E, S> {
+    RawLRU::verif_from_parts_rev(a.cap, hasher, cb, a.n, |i| (a.k[i], a.v[i]))
+}
